@@ -224,8 +224,12 @@ def run(chk):
     # ---- (a) static inventory stream
     inv_impl = junline(impl.run([jline({"op": "hidden_inventory"})])[0])
     inv_model = json.loads(run_driver(["hiddeninv"])[0])
-    si = {(a, b) for a, b, _w in inv_impl.get("items", [])}
-    sm = {(a, b) for a, b in inv_model}
+    # an environment read (`datetime.now()`, `os.environ`, …) is identified by the file and the call, not by the function it
+    # stands in: moving it into a helper of the same file is a refactoring, a new read in a file is a new input
+    def norm(a, b):
+        return (a.split(":")[0] + ":" + a.split(":")[-1], b) if b == "environment-read" and a.count(":") >= 2 else (a, b)
+    si = {norm(a, b) for a, b, _w in inv_impl.get("items", [])}
+    sm = {norm(a, b) for a, b in inv_model}
     # state (rebound or mutated somewhere, module globals of the extensions, …) must be exactly the model's list; containers
     # for which the scan finds no mutation site (`constant-table`) are not state: a new or vanished one is recorded, not a
     # disagreement — their constancy is checked at run time on every history below (`constants_changed`)
